@@ -93,9 +93,8 @@ Definition write_read_full : Prop :=
     (forall s p, fdec k_FlateDecode p (deflate s) = Some s) ->
     forall ops st,
       run fmt fmt_sd encS encB fenc deflate c ops = Ok st -> closed st = true ->
-      (* the documented limit of the reader on the number of entries of an xref stream (F18) *)
-      (Z.of_N (nextRef st) <= Gen_Limits.MaxXRefEntries 0)%Z ->
-      (* no dictionary handed to OpenStream had /Filter already (F21) *)
+      (* no dictionary handed to OpenStream had /Filter already: such data is encoded by the caller,
+         and a reader decodes the caller's chain as well, so it does not return the bytes written *)
       (forall n g d fs data, In (n, g, VStream d fs data) (wr st) -> dict_get k_Filter d = None) ->
       exists rs,
         open parse decS fdec (encrypted c) (out st) = Ok rs /\
